@@ -280,7 +280,7 @@ func vpDefaultOpts(role StateType) vpOpts {
 // vpCell runs one (role, message type) cell. tier 0 = quick bounds, 1 = thorough bounds.
 func vpCell(role StateType, typ pb.MessageType, tier int) {
 	o := vpDefaultOpts(role)
-	if tier >= 1 {
+	if tier == 1 {
 		o.ls, o.lu = 2, 2
 		o.noSizeLimit = false
 		o.concBase = false
@@ -289,6 +289,12 @@ func vpCell(role StateType, typ pb.MessageType, tier int) {
 			o.symPeers = 2
 			o.inflPeers = 2
 		}
+	}
+	if tier == 2 {
+		// middle tier: the deeper log and all four shapes of tier 1, but the
+		// compaction index stays in {0, 7} and one peer is symbolic
+		o.ls, o.lu = 2, 2
+		o.shapes = []int{0, 1, 3, 7}
 	}
 	if role == StateLeader {
 		switch typ {
@@ -323,6 +329,9 @@ func vpCell(role StateType, typ pb.MessageType, tier int) {
 	case pb.MsgHup, pb.MsgTimeoutNow:
 		if tier == 0 {
 			o.shapes = []int{0, 4, 5}
+		}
+		if tier == 2 {
+			o.shapes = []int{0, 1, 4, 5, 7}
 		}
 	case pb.MsgCheckQuorum:
 		if tier == 0 {
